@@ -15,6 +15,9 @@ def src(name, cfg, params, tiers, cap=None, **kw):
     return d
 
 
+from . import c05 as _c05
+_KP = _c05.P(_c05.SH2T, _c05.T2, 2)
+
 C = dict(
     prop="C14", driver="packer", level="model_checking",
     model_checks=[
@@ -23,6 +26,7 @@ C = dict(
         dict(module="Packer", cfg="Packer_MC2.cfg", tiers=["thorough"], workers=8),
         # "bytes removed are measured after the callback" is indistinguishable from the design as long as callbacks are read-only
         dict(module="Packer", cfg="Packer_RemeasureSame.cfg", tiers=["thorough"], workers=8),
+        dict(module="Checkpoint_MC", cfg="Checkpoint_MC_2t2_stale.cfg", workers=4),
     ],
     # the constants of each plan cfg and the driver parameters describe the same thresholds:
     # 1 model unit = 512 bytes (small pack); MaxSize = 2*maxMsgKB, MemMax = 2*memKB
@@ -43,10 +47,21 @@ C = dict(
              depth=14, params=P(3, 1, 3, 1), cap={"quick": 300, "thorough": 6000}),
         dict(name="sim", module="Packer", cfg="Packer_PlanSim.cfg", simulate={"quick": 20, "thorough": 400},
              depth=14, params=P(3, 1, 3, 1), cap={"quick": 300, "thorough": 6000}),
+        dict(name="kstale", module="Checkpoint_MC", cfg="Checkpoint_Plan_2t2_stale.cfg", cap={"quick": 60, "thorough": 1500}, workers=8,
+             params=_KP),
         dict(name="sim2", module="Packer", cfg="Packer_PlanSim2.cfg", simulate={"quick": 20, "thorough": 400},
              depth=14, params=P(4, 50, 2, BIG), cap={"quick": 300, "thorough": 6000}),
     ],
     directed="plans/C14.jsonl",
+    # end to end ("... or when the channel shuts down"): histories of Checkpoint.tla in which a task is paused while one of its
+    # packs is in flight - the pack then makes the write loop of the channel return while the batcher still holds packs of
+    # another, running task - replayed on the real server (driver ckpt, hook H7 reports the loop's exit), judged by
+    # Ckpt_Trace (PROP=C14, clause LoopExitOK)
+    more_drivers=["ckpt"],
+    driver_of=lambda p: "ckpt" if (p.get("src") == "kstale" or p.get("driver") == "ckpt") else "packer",
+    trace_of=lambda p: (("Ckpt_Trace", "Ckpt_Trace.cfg", {"PROP": "C14"}) if (p.get("src") == "kstale" or p.get("driver") == "ckpt")
+                        else ("Packer_Trace", "Packer_Trace.cfg", {})),
+    driver_parallel={"packer": 1, "ckpt": 6},
     trace=("Packer_Trace", "Packer_Trace.cfg"),
     death="violation",
     nontrivial=lambda t: any(e.get("op") == "recv" and any(len(c) > 0 for c in e.get("calls", [])) for e in t["events"]),
@@ -81,4 +96,8 @@ def must_violate(cfg, inv, what):
 def run(tier, replay=None):
     if not replay:
         must_violate("Packer_Remeasure.cfg", "ZeroWhenEmpty", "bytes removed from the global counter are measured after the callback has run")
+        r = vlib.run_tlc("Checkpoint_MC", "Checkpoint_MC_2t2_noexitflush.cfg", workers=2, timeout=300)
+        if "ShutdownFlushes" not in r.violated:
+            raise vlib.Inconclusive("Checkpoint_MC_2t2_noexitflush.cfg no longer violates ShutdownFlushes")
+        vlib.log("[tlc] Checkpoint_MC/Checkpoint_MC_2t2_noexitflush.cfg: violates ShutdownFlushes as expected")
     return flow.standard_flow(C, tier, replay)
